@@ -7,12 +7,16 @@
 //!   rosssim enum-groups --prop C13
 
 mod alloc;
+mod builder;
 mod dev;
+mod e2e;
 mod enumerate;
+mod events;
 mod gen;
 mod json;
 mod link_clean;
 mod link_hostile;
+mod node;
 mod refcodec;
 mod runner;
 mod scenario;
